@@ -347,7 +347,7 @@ def records3(m) -> List[Tuple[str, List[str]]]:
         y, mo, d, h, mi, s = ep["date"]
         p = m["month_pad"]
         two = (lambda x: f"{x:02d}") if p == "0" else (lambda x: f"{x:2d}")
-        r.append(("EPOCH3", [str(y), two(mo), two(d), two(h), two(mi), s, "0", str(len(ep["sats"])), ep["clk"]]))
+        r.append(("EPOCH3", [str(y), two(mo), two(d), two(h), two(mi), s, ep.get("flag", "0"), str(len(ep["sats"])), ep["clk"]]))
         for sat in ep["sats"]:
             r.append(("OBS3", [sat["sat"]] + [c for o in sat["obs"] for c in o]))
     return r
@@ -540,13 +540,13 @@ def kept_epochs(m, rate) -> List[Dict[str, Any]]:
 
 
 def expected_rows(m, rate):
-    """one row per (epoch, satellite) in file order: (time string, sat, clk, {type: (value, lli, snr)})"""
+    """one row per (epoch, satellite) in file order: (time string, sat, clk, epoch flag, {type: (value, lli, snr)})"""
     rows = []
     for ep in kept_epochs(m, rate):
         for sat in ep["sats"]:
             types = m["obstypes"][sat["sat"][0]] if m["fmt"] == 3 else m["obstypes"]
             rows.append({"time": time_string(ep["date"]), "sat": sat["sat"], "clk": value_of(ep["clk"]) if ep["clk"] else None,
-                         "obs": {t: tuple(value_of(x) if x else None for x in o) for t, o in zip(types, sat["obs"])}})
+                         "flag": int(ep.get("flag", "0")), "obs": {t: tuple(value_of(x) if x else None for x in o) for t, o in zip(types, sat["obs"])}})
     return rows
 
 
@@ -817,7 +817,7 @@ def oracle(m, p, err, rate) -> List[Tuple[str, str]]:
     # --- clock offset, epoch flag
     if col_floats(d["rcv_clk_offset"]) != [fl(r["clk"]) for r in rows]:
         out.append((f"{V}:rcv_clk_offset", "receiver clock offset column differs from the epoch records"))
-    if [int(x) for x in d["epoch_flag"]] != [0] * n:
+    if [int(x) for x in d["epoch_flag"]] != [r["flag"] for r in rows]:
         out.append((f"{V}:epoch_flag", "epoch flag column differs from the epoch records"))
     # --- header
     meta = p.meta
@@ -876,21 +876,25 @@ def model_parse(drv, fmt: int, text: str, rate) -> Any:
     return parse_model_out(drv.ask1(f"c11 parse{fmt} {r} " + hexs(text)))
 
 
+def compare_model_impl(ctx: Ctx, name: str, case, model: Any, impl: Any):
+    """model / impl: an error string or the canonical token dictionary"""
+    if isinstance(model, str) or isinstance(impl, str):
+        if model != impl:
+            ctx.disagree(name, case, model if isinstance(model, str) else "a value", impl if isinstance(impl, str) else "a value")
+    else:
+        diffs = compare_outputs(model, impl)
+        if diffs:
+            ctx.disagree(name, {**case, "paths": diffs[:8]},
+                         {k.split(":", 1)[1]: str(model.get(k.split(":", 1)[1]))[:200] for k in diffs[:4]},
+                         {k.split(":", 1)[1]: str(impl.get(k.split(":", 1)[1]))[:200] for k in diffs[:4]})
+
+
 def one_text(ctx: Ctx, drv, wd: Workdir, fmt: int, text: str, rate, case, m=None, name=None):
     name = name or f"parse{fmt}(file)"
     p, err, exc = run_impl(wd, fmt, text, rate)
     impl = err if p is None else canon_impl(p)
     if drv is not None:
-        model = model_parse(drv, fmt, text, rate)
-        if isinstance(model, str) or isinstance(impl, str):
-            if model != impl:
-                ctx.disagree(name, case, model if isinstance(model, str) else "a value", impl if isinstance(impl, str) else "a value")
-        else:
-            diffs = compare_outputs(model, impl)
-            if diffs:
-                ctx.disagree(name, {**case, "paths": diffs[:8]},
-                             {k.split(":", 1)[1]: str(model.get(k.split(":", 1)[1]))[:200] for k in diffs[:4]},
-                             {k.split(":", 1)[1]: str(impl.get(k.split(":", 1)[1]))[:200] for k in diffs[:4]})
+        compare_model_impl(ctx, name, case, model_parse(drv, fmt, text, rate), impl)
     if m is not None:
         for key, what in oracle(m, p, err, rate):
             ctx.violate(key, what, {**case, "model": m, "rate": rate, "file_text": text})
@@ -909,6 +913,146 @@ def check_render(ctx: Ctx, drv, m, text: str, i: int):
         bad = next((k for k, (x, y) in enumerate(zip(gl, wl)) if x != y), -1)
         ctx.disagree(f"render{m['fmt']}(model) = independent writer", {"i": i, "line": bad, "kind": recs[bad][0] if 0 <= bad < len(recs) else "?"},
                      gl[bad] if bad >= 0 else got[:80], wl[bad] if bad >= 0 else want[:80])
+
+
+# ================================================================================================
+# the abstract file of the file-level theorem (Spec/Rinex3ObsFile.lean, `c11 file3`)
+
+FILE3_CELLS = {"VER3": 3, "PGM": 3, "COM": 1, "MNUM": 1, "MTYPE": 1, "OBSAG": 2, "REC": 3, "ANT": 2, "POS": 3, "DHEN": 3, "DXYZ": 3,
+               "SSU": 1, "INTERVAL": 1, "TFIRST": 7, "TLAST": 7, "RCVCLK": 1, "DCBS": 3, "PCVS": 3, "LEAP3": 5, "NSAT": 1}
+
+
+def gen_file3_model(rng, thorough: bool) -> Dict[str, Any]:
+    """gen_file3 restricted to the record kinds of the theorem's file model (no phase shift / GLONASS slot / bias records,
+    comment texts without leading blanks: a cell of the abstract file has no outer blanks), every epoch with its flag (0, or 1 =
+    power failure between the previous and this epoch: the observation records follow as for flag 0)"""
+    m = gen_file3(rng, thorough)
+    m["phase_shift"], m["glonass_slot"], m["glonass_bias"] = [], [], None
+    m["comments"] = [(p, t.strip()) for p, t in m["comments"]]
+    for ep in m["epochs"]:
+        ep["flag"] = "1" if rng.random() < 0.15 else "0"
+    return m
+
+
+def opt_cell(text: str) -> str:
+    """`<hex text>~<value>`: `nan` for a blank text or one that denotes zero (computed here, never by Lean)"""
+    t = text.strip()
+    return f"{hexs(t)}~{'nan' if absent(t) else rs(Fraction(t))}"
+
+
+def int_cell(text: str) -> str:
+    t = text.strip()
+    return f"{hexs(t)}~{int(t)}"
+
+
+def file3_tokens(m) -> List[str]:
+    """the abstract file of model `m` in file order: header records as records3 puts them (comments included), END OF HEADER
+    left to the Lean writer, then epochs and satellite records from m["epochs"]"""
+    toks: List[str] = []
+    recs = records3(m)
+    i = 0
+    while recs[i][0] != "EOH":
+        k, c = recs[i]
+        i += 1
+        if k == "SYSOBS":
+            lines = [c[2:]]
+            while recs[i][0] == "SYSOBSC":
+                lines.append(recs[i][1])
+                i += 1
+            toks.append(f"S:{hexs(c[0].strip())}:{hexs(c[1].strip())}:" + ";".join(",".join(hexs(t.strip()) for t in l) for l in lines))
+        elif k == "MNAME":
+            toks.append("M:" + hexs(c[0].strip()))
+        else:
+            if FILE3_CELLS.get(k) != len(c):
+                raise ValueError(f"record {k} with {len(c)} cells is outside the file model")
+            toks.append(f"P:{k}:" + ",".join(hexs(x.strip()) for x in c))
+    p = m["month_pad"]
+    two = (lambda x: f"{x:02d}") if p == "0" else (lambda x: f"{x:2d}")
+    for ep in m["epochs"]:
+        y, mo, d, h, mi, s = ep["date"]
+        sec = s.strip()
+        toks.append("E:" + ",".join([int_cell(str(y)), int_cell(two(mo)), int_cell(two(d)), int_cell(two(h)), int_cell(two(mi)),
+                                     f"{hexs(sec)}~{rs(Fraction(sec))}", int_cell(ep.get("flag", "0")), hexs(str(len(ep["sats"]))),
+                                     opt_cell(ep["clk"])]))
+        for sat in ep["sats"]:
+            toks.append(f"R:{hexs(sat['sat'])}:" + ";".join(",".join(opt_cell(x) for x in o) for o in sat["obs"]))
+    return toks
+
+
+def parse_file3_answer(ans: str) -> Optional[Dict[str, Any]]:
+    """`wf=<0|1> inst=<0|1> text=<hex> | <out>` -> {"wf", "inst", "text", "out"}; None for a malformed answer"""
+    head, sep, out = ans.partition(" | ")
+    kv = dict(t.partition("=")[::2] for t in head.split())
+    if not sep or set(kv) != {"wf", "inst", "text"}:
+        return None
+    return {"wf": kv["wf"], "inst": kv["inst"], "text": unhex(kv["text"]), "out": parse_model_out(out.strip())}
+
+
+def first_diff_line(got: str, want: str) -> Tuple[int, str, str]:
+    gl, wl = got.split("\n"), want.split("\n")
+    k = next((j for j, (x, y) in enumerate(zip(gl, wl)) if x != y), min(len(gl), len(wl)))
+    return k, (gl[k] if k < len(gl) else "<end of text>"), (wl[k] if k < len(wl) else "<end of text>")
+
+
+def stats_file3(ctx: Ctx, m, rate):
+    ctx.count("file3")
+    ctx.count(f"file3 style={m['style']}")
+    ctx.count("file3 rate=" + ("none" if rate is None else "set"))
+    ctx.count(f"file3 systems={len(m['obstypes'])}")
+    ctx.count(f"file3 epochs={min(len(m['epochs']), 9)}")
+    for s, ts in m["obstypes"].items():
+        if len(ts) > 13:
+            ctx.count("file3 types>13 (header continuation)")
+    if m["empty_systems"]:
+        ctx.count("file3 declared-but-empty system", len(m["empty_systems"]))
+    if m["comments"]:
+        ctx.count("file3 comment record", len(m["comments"]))
+    kept = kept_epochs(m, rate)
+    for ep in m["epochs"]:
+        if ep.get("flag", "0") == "1":
+            ctx.count("file3 epoch flag=1")
+        if not any(ep is k for k in kept):
+            ctx.count("file3 decimated epoch")
+        for sat in ep["sats"]:
+            for o in sat["obs"]:
+                if o[0] == "":
+                    ctx.count("file3 blank observation")
+                elif absent(o[0]):
+                    ctx.count("file3 zero observation")
+
+
+def one_file3(ctx: Ctx, drv, wd: Workdir, m, rate, i: int):
+    """abstract file F of `m`: render(F) is the independent writer's text, wf(F), the theorem instance
+    readData(fileLines F) = expected F, and expected(F) after the post-processors is what the real parser delivers for that text"""
+    text = write_file(m)
+    case = {"file3": True, "i": i, "rate": rate, "style": m["style"]}
+    cont = any(len(v) > 13 for v in m["obstypes"].values())
+    flagged = any(ep.get("flag", "0") != "0" for ep in m["epochs"])
+    ctx.case(common.digest([text, rate, "file3"]),
+             nontrivial=(max(len(e["sats"]) for e in m["epochs"]) >= 2 and (cont or rate is not None or flagged)))
+    stats_file3(ctx, m, rate)
+    p, err, exc = run_impl(wd, 3, text, rate)
+    impl = err if p is None else canon_impl(p)
+    if drv is not None:
+        r = "-" if not rate else rs(Fraction(str(rate)))
+        toks = file3_tokens(m)
+        raw = drv.ask1(f"c11 file3 {r} {m['style']} " + " ".join(toks))
+        ans = None if raw == "bad-op" else parse_file3_answer(raw)
+        if ans is None:
+            ctx.disagree("file3: request understood by the driver", {**case, "tokens": toks[:40]}, raw[:200], "wf=… inst=… text=… | …")
+        else:
+            if ans["text"] != text:
+                k, g, w = first_diff_line(ans["text"], text)
+                ctx.disagree("render(F) = independent writer (file3)", {**case, "line": k}, g, w)
+            if ans["wf"] != "1":
+                ctx.disagree("file3: wf(F)", {**case, "tokens": toks[:60], "file_text": text}, f"wf={ans['wf']}", "wf=1 (the generator writes well-formed files)")
+            if ans["inst"] != "1":
+                ctx.disagree("file3: theorem instance readData(fileLines F) = expected F", {**case, "tokens": toks[:60], "file_text": text},
+                             f"inst={ans['inst']}", "inst=1")
+            compare_model_impl(ctx, "expected(F) = real parser (file3)", case, ans["out"], impl)
+    for key, what in oracle(m, p, err, rate):
+        ctx.violate(key, what, {**case, "model": m, "rate": rate, "file_text": text})
+    return p
 
 
 def pick_rate(rng, m, decimal: bool = False):
@@ -939,7 +1083,13 @@ def run(ctx: Ctx):
                 "values blank / zero / negative / full-width / Fortran '.300', LLI and SNR digits, sub-second epochs, receiver clock offsets, "
                 "header comments, lines stripped / padded to 80 / as formatted, sampling rates (none, dyadic; decimal rates in a separate "
                 "oracle-only block); written by an independent Python writer; non-trivial = at least two satellites and a continuation "
-                "line (header or data) or a sampling rate; distinct by file text + rate")
+                "line (header or data) or a sampling rate; distinct by file text + rate. "
+                "Block file3: RINEX 3 models restricted to the record kinds of the theorem's abstract file (Spec/Rinex3ObsFile.lean: no "
+                "phase-shift / GLONASS slot / bias records, comments without leading blanks), epoch flag 0 or 1 (15 %), are handed to the driver "
+                "as the abstract file F (cells as printed + the values computed here with Fraction): render(F) must be the independent writer's "
+                "text byte for byte, wf(F) and the theorem instance readData(fileLines F) = expected F must hold, expected(F) after the "
+                "post-processors must be the real parser's output for that text, and the oracle compares the parser with the model; "
+                "non-trivial there = two satellites and a header continuation line, a sampling rate or a flagged epoch")
     ctx.trusted += ["float(text) is correctly rounded (CPython); the model keeps exact decimals, the harness compares float(Fraction)",
                     "'{:010.7f}'.format(float(second)) of a 7-decimal text reproduces the text (measured on every epoch)",
                     "the sampling test |obs_sec - round(obs_sec/rate)*rate| >= 5e-8 is modelled in exact rationals; the double computation "
@@ -998,6 +1148,10 @@ def run(ctx: Ctx):
                 ctx.case(common.digest([text, rate]))
                 ctx.count("decimal sampling rate")
                 one_text(ctx, drv, wd, fmt, text, rate, case, m)
+        # the abstract RINEX 3 file of the file-level theorem (Spec/Rinex3ObsFile.lean): render, wf, theorem instance, expected
+        for i in range(ctx.budget(120, 1500)):
+            m = gen_file3_model(rng, ctx.thorough)
+            one_file3(ctx, drv, wd, m, pick_rate(rng, m), i)
     finally:
         wd.close()
     ctx.traces = ctx.evaluations
